@@ -225,9 +225,9 @@ class RecheckCheck:
         # R
         Ps = [32768] if quick else [16384, 32768, 65536]
         for P in Ps:
-            for sh in (["S1", "D1", "D1n", "D2n", "D3", "D3n", "D3d", "D3b"] if quick
+            for sh in (["S1", "D1", "D1n", "D2n", "D3", "D3n", "D3d", "D3b", "D3e"] if quick
                        else ["S1", "D1", "D1n", "D2n", "D3", "D3s", "D3n",
-                             "D3d", "D3b", "D4"]):
+                             "D3d", "D3b", "D3e", "D4"]):
                 n = world.nfiles(sh)
                 if n <= 2:
                     alpha = e1.r_alphabet(P, "quick", n)
@@ -263,7 +263,7 @@ class RecheckCheck:
         # one created before and one after the payload (listing order)
         world.write_file(os.path.join(parent, world.ROOT_NAME + ".old", "a"),
                          b"junk")
-        root = world.materialize(files, parent)
+        root = world.materialize(files, parent, shape=w["shape"])
         world.write_file(os.path.join(parent, world.ROOT_NAME + "2"), b"junk")
         world.write_file(os.path.join(parent, "to"), b"junk")
         mdir = os.path.join(base, "meta")
